@@ -103,7 +103,7 @@ def gen_scenarios(ctx, cfg, num, seed, depth=60, module="ReloadGen"):
     return out
 
 
-def run_harness(ctx, scenarios, name, run_re="TestVerifReload", timeout=1500):
+def run_harness(ctx, scenarios, name, run_re="TestVerifReload", timeout=1500, race=False):
     """scenarios: list of {"id", "replay", "steps"}.  Returns the trace path."""
     inp = os.path.join(ctx.scratch, name + ".in.json")
     out = os.path.join(ctx.scratch, name + ".ndjson")
@@ -111,8 +111,10 @@ def run_harness(ctx, scenarios, name, run_re="TestVerifReload", timeout=1500):
     for i, sc in enumerate(scenarios):
         sc["ports"] = ports[5 * i:5 * i + 5]
     json.dump({"ports": ports[:5], "scenarios": scenarios}, open(inp, "w"))
-    rc, txt = vlib.go_overlay_test(ctx, "cmd/outline-ss-server", OVERLAY, run_re, tags="verif",
+    rc, txt = vlib.go_overlay_test(ctx, "cmd/outline-ss-server", OVERLAY, run_re, tags="verif", race=race,
                                    env_extra={"VERIF_IN": inp, "VERIF_OUT": out}, timeout=timeout, verbose=False)
+    if race:
+        ctx.race_output = getattr(ctx, "race_output", "") + txt
     if vlib.compile_failed(txt):
         raise vlib.Inconclusive("reload overlay harness does not compile against the working tree:\n" + txt[-3000:])
     if rc != 0 or not os.path.exists(out):
